@@ -248,6 +248,13 @@ def run(ctx):
     r11_1(ctx, R)
     r11_2(ctx, R)
     r11_3(ctx, R)
+    # a source that is dropped while it may still hold items never yields them: the stray-drop rule of C06, for the merge types
+    import c06
+    before = len(ctx.obs)
+    c06.r6_5(ctx, R)
+    ctx.obs = ctx.obs[:before] + [o for o in ctx.obs[before:] if "merge_" in str(o.fn) or o.label.startswith("floor:")]
+    ctx.rule("R6.5", "see C06 R6.5 (shared, functions of the merge types): outside Drop impls no live drop of a value owning a source, "
+                     "except an exhausted group where its poll reported Ready(None)")
     for fn_ in (c01.r1_1, c01.r1_2, c01.r1_3, c01.r1_4, c01.r1_5, c01.r1_8):
         fn_(ctx, R)
     ctx.rule("R1.x", "see C01 (shared): wake/poll handshake -- a source whose wake-up is lost never yields its remaining items")
